@@ -210,3 +210,30 @@ def exactly_for_class(run, node, evp, klass, stop=None):
     if disjoint:
         bad = [b for b in bad if not (b[0].get('INT') and b[0].get('META'))]
     return not bad
+
+
+def helper_family(module_tree, F, params=()):
+    """F and the private module-level functions it calls (transitively): [(function node, {param of F: name under which it arrives there})].
+    A parameter is followed only when it is handed on as a plain name (positionally or by keyword)."""
+    funcs = {f.name: f for f in module_tree.body if isinstance(f, ast.FunctionDef)}
+    out = [(F, {p_: p_ for p_ in params})]
+    seen = {id(F)}
+    work = list(out)
+    while work:
+        G, names = work.pop()
+        inv = {v: k for k, v in names.items()}
+        for c in q.calls(G):
+            if isinstance(c.func, ast.Name) and c.func.id.startswith('_') and c.func.id in funcs and id(funcs[c.func.id]) not in seen:
+                H = funcs[c.func.id]
+                hp = [a.arg for a in H.args.args]
+                m = {}
+                for i, a in enumerate(c.args):
+                    if isinstance(a, ast.Name) and a.id in inv and i < len(hp):
+                        m[inv[a.id]] = hp[i]
+                for k in c.keywords:
+                    if k.arg and isinstance(k.value, ast.Name) and k.value.id in inv:
+                        m[inv[k.value.id]] = k.arg
+                seen.add(id(H))
+                out.append((H, m))
+                work.append((H, m))
+    return out
